@@ -72,7 +72,7 @@ TraceNext ==
   /\ l' = l + 1 /\ tid' = tid
   /\ TLCSet(2, [TLCGet(2) EXCEPT ![tid] = Max(@, l)])
   /\ TLCSet(3, TLCGet(3) \cup {<<tid, l, n, resp'.phase>> : n \in Failing'})
-  /\ TLCSet(4, TLCGet(4) \cup {<<resp'.act, resp'.phase>>})
+  /\ TLCSet(4, TLCGet(4) \cup {<<resp'.act, resp'.phase, resp'.status>>})
   /\ (l = Len(Tr)) => TLCSet(1, TLCGet(1) \cup {tid})
 
 TraceSpec == TraceInit /\ [][TraceNext]_tvars
